@@ -62,6 +62,10 @@ def random_schedule(rng, restarts):
             steps.append({'k': 'Timer', 'n': rng.choice('AB'), 'e': rng.choice(['NeedHeartbeat', 'NeedHeartbeat', 'PeerTimeout'])})
         elif restarts:
             steps.append({'k': 'Restart', 'n': rng.choice('AB')})
+    if restarts:
+        # every restart schedule discards an engine at least once, somewhere after traffic has flowed
+        for _ in range(rng.randint(1, 2)):
+            steps.insert(rng.randint(len(steps) // 2, len(steps)), {'k': 'Restart', 'n': rng.choice('AB')})
     return steps
 
 
